@@ -15,6 +15,19 @@
 (*                         keeps whichever of the two kinds is the         *)
 (*                         SUPERtype (and fails when they are unrelated)   *)
 (*                         instead of merging them.                        *)
+(*   DEV_OwnerImportTwice  remap_resource ensures that the interface owning*)
+(*                         a used resource is imported by looking the      *)
+(*                         interface's own id up in the import map; with   *)
+(*                         the deviation an import of that interface under *)
+(*                         a semver-compatible name is not seen and the    *)
+(*                         interface is imported a second time.            *)
+(*   DEV_OwnerNaming       (code as it is, KF24) that import is made       *)
+(*                         outside the supersede logic of aggregate():     *)
+(*                         it is named by the id the merged interface      *)
+(*                         happens to carry and never renamed/redirected   *)
+(*                         by a later owner of a higher version.  FALSE =  *)
+(*                         the ideal: the owner is aggregated like any     *)
+(*                         other requirement under the name it was used by.*)
 (*                                                                         *)
 (* The state machine appends one contributor at a time; invariants tie     *)
 (* the Impl state to the contract for every history (= every order).       *)
@@ -23,7 +36,9 @@ EXTENDS Integers, Sequences, FiniteSets, TLC, Types, Names, Lib_agg
 
 CONSTANTS MaxContrib,           \* longest history
           Focus,                \* contributor ids histories are drawn from
-          DEV_NestedSupertype
+          DEV_NestedSupertype,
+          DEV_OwnerImportTwice,
+          DEV_OwnerNaming
 
 Contrib(id) == AG_Contribs[id]
 
@@ -79,6 +94,15 @@ Explicit(h) == Range(Flatten(h))
 \* a requirement whose interface uses a type of another interface also requires that interface
 Implicit(h) == UNION {IF r.kind.c = "inst" THEN {[name |-> u.iface, kind |-> u.kind] : u \in Range(r.kind.us)} ELSE {} : r \in Explicit(h)}
 AllReqs(h) == Explicit(h) \cup Implicit(h)
+\* handles name a used resource through the interface that owns it: that interface must be imported
+IsRes(k) == k.c = "rtype" /\ k.desc = "resource"
+OwnerLocals(k) == IF k.c = "inst"
+                  THEN {n \in DOMAIN k.us : LET u == k.us[n] IN u.kind.c = "inst" /\ u.name \in DOMAIN u.kind.ex /\ IsRes(u.kind.ex[u.name])}
+                  ELSE {}
+OwnerUses(k) == {k.us[n] : n \in OwnerLocals(k)}
+Owners(h) == UNION {{[name |-> u.iface, kind |-> u.kind] : u \in OwnerUses(r.kind)} : r \in Explicit(h)}
+\* the requirements that name an import
+Required(h) == Explicit(h) \cup Owners(h)
 
 Fails(h) == \E r1, r2 \in AllReqs(h) : Key(r1.name) = Key(r2.name) /\ ~CMergeable(r1.kind, r2.kind)
 
@@ -95,9 +119,9 @@ VerLeq(a, b) == a = b \/ VerLess(a, b)
 \* metadata only, the one with build metadata is the higher (the universe has one build string)
 Higher(n, m) == VerLess(m.ver, n.ver) \/ (m.ver = n.ver /\ n.build /\ ~m.build)
 CanonOfKey(h, key) ==
-  LET ns == {r.name : r \in {x \in Explicit(h) : Key(x.name) = key}}
+  LET ns == {r.name : r \in {x \in Required(h) : Key(x.name) = key}}
   IN CHOOSE n \in ns : \A m \in ns : m = n \/ m.ver = <<>> \/ Higher(n, m)
-ContractImports(h) == {[name |-> CanonOfKey(h, k).s, kind |-> MergedKind(h, k)] : k \in {Key(r.name) : r \in Explicit(h)}}
+ContractImports(h) == {[name |-> CanonOfKey(h, k).s, kind |-> MergedKind(h, k)] : k \in {Key(r.name) : r \in Required(h)}}
 ContractCanon(h) == [s \in {r.name.s : r \in Explicit(h)} |->
                        CanonOfKey(h, Key((CHOOSE r \in Explicit(h) : r.name.s = s).name)).s]
 
@@ -181,10 +205,11 @@ ImportKind(st, e) == IF e.named THEN st.ifc[Key(e.n)] ELSE e.k
 First(S) == CHOOSE i \in S : \A j \in S : i <= j
 RemoveAt(s, i) == [j \in 1..(Len(s) - 1) |-> IF j < i THEN s[j] ELSE s[j + 1]]
 
-InitSt == [imports |-> <<>>, ifc |-> <<>>, redir |-> <<>>, failed |-> FALSE]
+\* ids: Key -> the id the one definition of a named interface carries (the name it was first met by)
+InitSt == [imports |-> <<>>, ifc |-> <<>>, redir |-> <<>>, failed |-> FALSE, ids |-> <<>>]
 
-\* TypeAggregator::aggregate(name, kind)
-AggregateOne(st, req) ==
+\* the body of TypeAggregator::aggregate(name, kind): exact name, track, fresh remap
+AggregateMain(st, req) ==
   LET name == req.name
       k == req.kind
       named == IsIfaceName(name) /\ k.c = "inst"
@@ -212,6 +237,9 @@ AggregateOne(st, req) ==
        IN IF ~r.ok THEN failed
           ELSE IF Higher(name, old.n)
                THEN [st EXCEPT !.ifc = r.ifc,
+                               \* the merged interface is known by the higher version from now on
+                               !.ids = IF old.named /\ Key(old.n) \in DOMAIN st.ids /\ st.ids[Key(old.n)].s = old.n.s
+                                       THEN [st.ids EXCEPT ![Key(old.n)] = name] ELSE st.ids,
                                !.imports = Append(RemoveAt(st.imports, i), [n |-> name, k |-> r.k, named |-> old.named]),
                                !.redir = (old.n.s :> name.s) @@ [x \in DOMAIN st.redir |-> IF st.redir[x] = old.n.s THEN name.s ELSE st.redir[x]]]
                ELSE [st EXCEPT !.ifc = r.ifc, !.imports[i].k = r.k, !.redir = (name.s :> old.n.s) @@ st.redir]
@@ -219,6 +247,45 @@ AggregateOne(st, req) ==
        LET r == IF named THEN RemapIface(st.ifc, name, k) ELSE RemapKind(st.ifc, k)
        IN IF ~r.ok THEN failed
           ELSE [st EXCEPT !.ifc = r.ifc, !.imports = Append(st.imports, [n |-> name, k |-> r.k, named |-> named])]
+
+\* the interface names a requirement spells
+ReqNames(req) == {req.name} \cup (IF req.kind.c = "inst" THEN {u.iface : u \in Range(req.kind.us)} ELSE {})
+
+\* remap_resource: "if there is an owning interface, ensure it is imported" (o: the name the owner was used by)
+EnsureOwner(s, o) ==
+  LET id == s.ids[Key(o)]
+      OnTrack(n) == {i \in DOMAIN s.imports :
+                       \/ s.imports[i].n.s = n.s
+                       \/ HasTrack(n) /\ HasTrack(s.imports[i].n) /\ Key(s.imports[i].n) = Key(n)}
+      exact == \E i \in DOMAIN s.imports : s.imports[i].n.s = id.s
+  IN IF DEV_OwnerNaming
+     THEN \* named by the id the merged definition carries; no rename, no redirect
+          IF exact \/ (~DEV_OwnerImportTwice /\ OnTrack(id) # {}) THEN s
+          ELSE [s EXCEPT !.imports = Append(@, [n |-> id, k |-> s.ifc[Key(o)], named |-> TRUE])]
+     ELSE \* ideal: the owner is a requirement like any other
+          IF OnTrack(o) = {} THEN [s EXCEPT !.imports = Append(@, [n |-> o, k |-> s.ifc[Key(o)], named |-> TRUE])]
+          ELSE LET i == First(OnTrack(o))
+                   old == s.imports[i]
+               IN IF old.n.s # o.s /\ Higher(o, old.n)
+                  THEN [s EXCEPT !.imports = Append(RemoveAt(s.imports, i), [old EXCEPT !.n = o]),
+                                 !.redir = (old.n.s :> o.s) @@ [x \in DOMAIN s.redir |-> IF s.redir[x] = old.n.s THEN o.s ELSE s.redir[x]]]
+                  ELSE s
+
+\* TypeAggregator::aggregate(name, kind)
+AggregateOne(st, req) ==
+  LET s1 == AggregateMain(st, req)
+      k == req.kind
+      named == IsIfaceName(req.name) /\ k.c = "inst"
+      newKeys == DOMAIN s1.ifc \ DOMAIN st.ifc
+      s2 == [s1 EXCEPT !.ids = [x \in DOMAIN s1.ids \cup newKeys |->
+                                  IF x \in DOMAIN s1.ids THEN s1.ids[x] ELSE CHOOSE n \in ReqNames(req) : Key(n) = x]]
+      \* a used resource that is new to the user's definition is remapped (not merged): its owner is ensured
+      \* (the ideal aggregates the owner of every used resource)
+      isNew(n) == ~DEV_OwnerNaming \/ ~(named /\ Key(req.name) \in DOMAIN st.ifc /\ n \in DOMAIN st.ifc[Key(req.name)].ex)
+      owners == SeqOfSet({k.us[n].iface : n \in {m \in OwnerLocals(k) : isNew(m)}})
+      RECURSIVE F(_, _)
+      F(s, i) == IF i > Len(owners) THEN s ELSE F(EnsureOwner(s, owners[i]), i + 1)
+  IN IF st.failed \/ s1.failed THEN s1 ELSE F(s2, 1)
 
 RECURSIVE AggregateAll(_, _)
 AggregateAll(st, reqs) == IF reqs = <<>> THEN st ELSE AggregateAll(AggregateOne(st, Head(reqs)), Tail(reqs))
@@ -253,11 +320,26 @@ Spec == Init /\ [][Next]_vars
 \* fails exactly when two contributors are incompatible
 FailsExactly == st.failed = Fails(hist)
 \* one import per key, under the highest version; merged kinds are the unions; names are unique
-MatchesContract == ~st.failed /\ ~Fails(hist) => ImplImports(st) = {[name |-> i.name, kind |-> NormKind(i.kind)] : i \in ContractImports(hist)}
+\* KF24 (DEV_OwnerNaming): the import of a resource's owner is named outside the supersede logic.  Its name
+\* agrees with the contract in every order only when the highest name spelled on that track is an explicit
+\* requirement (which then supersedes whatever the owner import was called); the other histories are excused
+OwnerNameShape(h) ==
+  \E o \in Owners(h) :
+    LET ns == {r.name : r \in {x \in AllReqs(h) : Key(x.name) = Key(o.name)}}
+        top == CHOOSE n \in ns : \A m \in ns : m = n \/ m.ver = <<>> \/ Higher(n, m)
+    IN ~\E r \in Explicit(h) : r.name = top
+Excused(h) == DEV_OwnerNaming /\ OwnerNameShape(h)
+MatchesContract == ~st.failed /\ ~Fails(hist) /\ ~Excused(hist) => ImplImports(st) = {[name |-> i.name, kind |-> NormKind(i.kind)] : i \in ContractImports(hist)}
 UniqueNames == \A i, j \in DOMAIN st.imports : st.imports[i].n.s = st.imports[j].n.s => i = j
+\* whatever an import is called (also in the excused histories): one import per compatibility key, of the merged kind
+OneImportPerKey == ~st.failed => \A i, j \in DOMAIN st.imports : Key(st.imports[i].n) = Key(st.imports[j].n) => i = j
+MatchesByKey ==
+  ~st.failed /\ ~Fails(hist) =>
+    {[key |-> Key(st.imports[i].n), kind |-> NormKind(ImportKind(st, st.imports[i]))] : i \in DOMAIN st.imports}
+      = {[key |-> k, kind |-> NormKind(MergedKind(hist, k))] : k \in {Key(r.name) : r \in Required(hist)}}
 \* every lower name is redirected to the canonical name, which is imported (chains have length one)
 Canonical ==
-  ~st.failed /\ ~Fails(hist) =>
+  ~st.failed /\ ~Fails(hist) /\ ~Excused(hist) =>
     \A s \in DOMAIN ContractCanon(hist) :
       /\ ImplCanon(st, s) = ContractCanon(hist)[s]
       /\ \E i \in DOMAIN st.imports : st.imports[i].n.s = ImplCanon(st, s)
